@@ -19,6 +19,7 @@ import (
 	"runtime"
 	"strings"
 	"sync"
+	"sync/atomic"
 	"time"
 
 	"github.com/emersion/go-smtp"
@@ -197,6 +198,16 @@ func (r *Rig) BeginShutdown() bool {
 // ImplicitTLS reports whether connections are under TLS from the first octet.
 func (c Config) ImplicitTLS() bool { return c.TLS == "implicit" || c.TLS == "wrapped" }
 
+// ambient holds server settings that have no bearing on any property and that
+// a case did not choose itself: bit 0 a (long) ReadTimeout, bit 1 a (long)
+// WriteTimeout, bit 2 a Debug writer. The framework derives the bits from the
+// case (a hash of its JSON), so that every check meets every combination
+// without drawing it, and a replay meets the same one.
+var ambient int32
+
+// SetAmbient chooses the unrelated settings of the servers built from now on.
+func SetAmbient(bits int) { atomic.StoreInt32(&ambient, int32(bits)) }
+
 func NewRig(cfg Config, script Script) *Rig {
 	hub := NewHub()
 	b := NewBackend(hub, script)
@@ -226,7 +237,14 @@ func NewRig(cfg Config, script Script) *Rig {
 	if cfg.WriteTimeoutMs != 0 {
 		s.WriteTimeout = time.Duration(cfg.WriteTimeoutMs) * time.Millisecond
 	}
-	if cfg.Debug {
+	amb := atomic.LoadInt32(&ambient)
+	if amb&1 != 0 && cfg.ReadTimeoutMs == 0 {
+		s.ReadTimeout = 90 * time.Second
+	}
+	if amb&2 != 0 && cfg.WriteTimeoutMs == 0 {
+		s.WriteTimeout = 90 * time.Second
+	}
+	if cfg.Debug || amb&4 != 0 {
 		s.Debug = io.Discard
 	}
 	lg := &LogBuf{}
